@@ -221,6 +221,10 @@ def _norm_sig(t):
     t = re.sub(r"\bb\d+(_\d+)?\b", "v", t).replace("v?", "v")
     # block braces and a `let` that only names a sub-expression do not distinguish adapters either
     t = t.replace("{", "").replace("}", "")
+    # `a.eq(b)` / `a.ne(b)` are `a == b` / `a != b`; explicit derefs and grouping parentheses carry no meaning of their own in a signature
+    t = t.replace(".eq(", "==(").replace(".ne(", "!=(")
+    head, sep, rest = t.partition("(")
+    t = head + sep + rest.replace("(", "").replace(")", "").replace("*", "")
     return t
 
 
